@@ -331,7 +331,17 @@ def _lookup(repo, rep):
               "value=result" in text, "R04.3", tl.qualname,
               "the transformed tree is what gets assigned",
               construct="transform-used", where=L.where(tl))
-    rep.check("raise ExpressionError(exc.msg, string)" in text, "R04.3",
+    rs = [n for n in ast.walk(tl.node) if isinstance(n, ast.Raise)
+          and isinstance(n.exc, ast.Call)
+          and src(n.exc.func) == "ExpressionError" and len(n.exc.args) == 2
+          and any(isinstance(h, ast.ExceptHandler) and h.type is not None
+                  and src(h.type) == "SyntaxError"
+                  for h, _ in L.guards_of(n, tl.node))]
+    prm = tl.node.args.args[1].arg if len(tl.node.args.args) > 1 else ""
+    okse = len(rs) == 1 and prm in {
+        x.id for x in ast.walk(L.inline_locals(tl.node, rs[0].exc.args[1]))
+        if isinstance(x, ast.Name)}
+    rep.check(okse, "R04.3",
               tl.qualname, "a syntax error becomes an ExpressionError on the "
               "expression text", construct="syntax-error", where=L.where(tl))
     # NameTransform / Scope orders are decided under C05 (R05.5, R05.6);
